@@ -39,6 +39,8 @@ def scenario(rng, i):
     r = rng.random()
     if r < 0.7:
         fault = {"op": "tamper", "hist": h, "gen": g, "kind": rng.choice(KINDS), "pos": rng.randrange(0, 100000), "bit": rng.randrange(8)}
+        if i % 2 == 1:
+            fault["keep_mtime"] = True
     elif r < 0.87:
         fault = {"op": "rmmanifest", "hist": h, "gen": g}
     else:
@@ -58,7 +60,7 @@ def scenario(rng, i):
 
 
 RULE = ("histories of 1-4 generations, flat and nested to depth 3; exactly one fault per scenario: bit flip / insertion / deletion / truncation / appended newline at a "
-        "random position of ANY manifest of ANY history (root or nested, any generation), removal of such a manifest, or removal of a chain file; then 3-8 of the "
+        "random position of ANY manifest of ANY history (root or nested, any generation; every other scenario restores the file's time stamps afterwards), removal of such a manifest, or removal of a chain file; then 3-8 of the "
         "history-reading commands (create, create -sf, verify, verify -dh, diff, info, info -sf, flatten) on the root; oracle: exit code 31 / 33 / 32 and an identical "
         "byte snapshot (type, bytes, mode, mtime) of the whole tree and of the flatten destination. Non-trivial: every scenario (each has a fault).")
 
